@@ -19,6 +19,8 @@ LEVEL = "other"
 def run(chk):
     cfgs = ["base", "z"] if chk.tier == "quick" else ["base", "z", "hi", "noexc"]
     chk.configs = cfgs
+    chk.rule("OPEN.flag", "the builders pass isOpen according to outrec->is_open and every caller hands them a real open-solution object: no open piece is built as "
+             "(and added to the solution as) a closed ring")
     chk.rule("SCALE.ClipperD", "ClipperD: inputs are scaled by scale_, every output (paths and every level of the tree) is de-scaled by invScale_ / the inherited scale: a "
              "solution vertex left in internal units lies outside the inputs' bounding box")
     chk.rule("LOOP.bound-live", "the output builders' index loops over outrec_list_ re-read its size in every iteration: rings that CleanCollinear splits off while "
@@ -51,6 +53,7 @@ def run(chk):
         from ..engines import e9_safety as e9
         e9.rule_int64_product(db, chk, cfg)
         e10.rule_removal_restart(db, chk, cfg)
+        e10.rule_open_flag(db, chk, cfg)       # an open record built as a closed ring puts a raw polyline into the closed solution
         from ..engines import e8_scale as _e8
         _e8.rule_clipperd(db, chk, cfg)        # "every solution vertex lies inside the bounding box of the inputs": ClipperD's outputs are de-scaled
         from ..engines import e2_state as _e2, e10_pipeline as _e10
